@@ -176,7 +176,7 @@ type imp struct {
 	em       bool                // engine mode (findBug): Go.EM — a script mode with the requests init / checkOnce / early
 	ck       bool                // check mode (doCheck, checkFailFile): Go.CM
 	ckSt     *ckState
-	sm       bool                // script mode (shrink.go's shrinker): reads of s.rec / s.shrinks and s.accept are effects (Go.SM)
+	sm       bool // script mode (shrink.go's shrinker): reads of s.rec / s.shrinks and s.accept are effects (Go.SM)
 }
 
 type isig struct {
@@ -1037,6 +1037,9 @@ func (m *imp) block(list []ast.Stmt, c ictx) string {
 		if s, ok := m.ckStmt(list[0], rest); ok {
 			return s
 		}
+		if s, ok := m.acStmt(list, c, rest); ok {
+			return s
+		}
 	}
 	switch s := list[0].(type) {
 	case *ast.ReturnStmt:
@@ -1801,7 +1804,15 @@ func (t *trans) impFunctionMode(key string, sigs map[string]*isig, sm bool, suff
 	t.hoisted = map[*ast.CallExpr]string{}
 	var params []string
 	sg := &isig{lean: strings.ReplaceAll(key, ".", "_") + suffix, sm: sm}
-	if d.Recv != nil && sm && recvType(d) == "shrinker" {
+	if d.Recv != nil && ckMode && recvType(d) == "shrinker" {
+		// accept: the shrinker's own state — the current test case, its error, the cache of refused candidates, two counters
+		m.recv, m.recvTy = recvName(d), recvType(d)
+		m.fields = []sfield{{"rec_data", "[]u64"}, {"err", "errv"}, {"cache", "[][]u64"}, {"hits", "i64"}, {"shrinks", "i64"}}
+		for _, f := range m.fields {
+			params = append(params, fmt.Sprintf("(%s : %s)", m.fieldVar(f.name), leanTyX(f.ty)))
+		}
+		sg.recvTy, sg.fields = m.recvTy, m.fields
+	} else if d.Recv != nil && sm && recvType(d) == "shrinker" {
 		// the shrinker's state is reached through effects (Go.SM.data / groups / shrinks / accept), not parameters
 		m.recv, m.recvTy = recvName(d), recvType(d)
 		sg.recvTy = m.recvTy
@@ -1842,6 +1853,11 @@ func (t *trans) impFunctionMode(key string, sigs map[string]*isig, sm bool, suff
 			}
 			if _, isFn := f.Type.(*ast.FuncType); emMode && (exprText(t.p.fset, f.Type) == "tb" || isFn) {
 				dropped = true // the testing.TB and the property belong to the oracle
+				argPos++
+				continue
+			}
+			if ckMode && m.recvTy == "shrinker" && (n.Name == "label" || n.Name == "format" || n.Name == "args") {
+				dropped = true // they feed the debug log and the statistics only
 				argPos++
 				continue
 			}
